@@ -35,6 +35,7 @@ pub ghost struct World {
     pub steps: nat,                    // filesystem calls issued by us
     pub opens: nat,                    // open(2)/opendir attempts issued by us
     pub hard_faults: nat,              // calls that failed for a reason the state does not explain
+    pub app_errors: nat,               // errors reported by application callbacks (populate)
     pub maintained: nat,               // number of completed prune runs (for C10 ordering)
     pub published: nat,                // number of publish steps (rename/link onto an entry)
     pub listed: nat,                   // directory items returned to us by readdir so far
@@ -354,6 +355,7 @@ impl World {
         &&& self.gran == old.gran
         &&& self.now >= old.now
         &&& self.hard_faults >= old.hard_faults
+        &&& self.app_errors >= old.app_errors
         &&& self.steps >= old.steps
         &&& self.opens >= old.opens
         &&& self.published >= old.published
